@@ -75,9 +75,46 @@ class Str(V):
         self.s = s
 
 
+def _rng_of(bits, signed):
+    return (-(1 << (bits - 1)), (1 << (bits - 1)) - 1) if signed else (0, (1 << bits) - 1)
+
+
+def wrap_int(iv, rng, bits, signed, fits=None):
+    """mathematical value -> value after C conversion to (bits, signed); (new iv, new rng).  No `mod` is emitted when
+    interval arithmetic - or, failing that, the solver under the current path condition (`fits`) - shows that the
+    value is representable."""
+    lo, hi = _rng_of(bits, signed)
+    if rng is not None and lo <= rng[0] and rng[1] <= hi:
+        return iv, rng
+    if fits is not None and fits(iv, lo, hi):
+        return iv, (max(lo, rng[0]) if rng else lo, min(hi, rng[1]) if rng else hi)
+    m = 1 << bits
+    if signed:
+        return ((iv + (m >> 1)) % m) - (m >> 1), (lo, hi)
+    return iv % m, (lo, hi)
+
+
 class CI(V):
-    def __init__(self, bv, bits, signed):
-        self.bv, self.bits, self.signed = bv, bits, signed
+    """C integer: bit-vector `bv` of `bits` bits, signedness, and - when it is known without going through
+    bit operations - an *integer view* `iv` (SMT Int term equal to the value) with a conservative interval
+    `rng`.  Counters, cursors and pointer offsets keep an integer view, so bounds obligations are linear
+    integer arithmetic; data that went through masks/shifts by symbolic amounts etc. only has `bv`."""
+
+    def __init__(self, bv, bits, signed, iv=None, rng=None):
+        self.bv, self.bits, self.signed, self.iv, self.rng = bv, bits, signed, iv, rng
+        if iv is not None and rng is None:
+            self.rng = _rng_of(bits, signed)
+
+    @staticmethod
+    def var(name, bits, signed):
+        """symbolic input with an integer view: an Int variable constrained to the type's range (caller adds
+        `range_constraint()` to the path condition)"""
+        x = z3.Int(name)
+        return CI(z3.Int2BV(x, bits), bits, signed, iv=x, rng=_rng_of(bits, signed))
+
+    def range_constraint(self):
+        lo, hi = _rng_of(self.bits, self.signed)
+        return z3.And(self.iv >= lo, self.iv <= hi)
 
     def __repr__(self):
         return f"CI({self.bv},{self.bits},{'s' if self.signed else 'u'})"
@@ -179,6 +216,12 @@ def is_true(e):
     return z3.is_true(z3.simplify(e))
 
 
+def _has_quantifier(e):
+    if z3.is_quantifier(e):
+        return True
+    return any(_has_quantifier(c) for c in e.children())
+
+
 def _small_range(lo, hi, limit=8):
     d = z3.simplify(hi - lo) if z3.is_expr(hi - lo) else None
     l0 = z3.simplify(lo) if z3.is_expr(lo) else z3.IntVal(lo)
@@ -259,6 +302,20 @@ class Engine:
         sol.add(*conds)
         return sol.check() != z3.unsat
 
+    def fits_fn(self, p):
+        """solver-aided range check under the path condition (keeps integer views free of `mod`)"""
+        if p is None:
+            return None
+
+        def fits(iv, lo, hi):
+            self.n_fits = getattr(self, "n_fits", 0) + 1
+            sol = z3.Solver()
+            sol.set("timeout", 300)
+            sol.add(*[c for c in p.pc if not _has_quantifier(c)])
+            sol.add(z3.Or(iv < lo, iv > hi))
+            return sol.check() == z3.unsat
+        return fits
+
     # ---- C integer semantics ----
     @staticmethod
     def ctype(name):
@@ -270,19 +327,25 @@ class Engine:
     def conv(self, v, bits, signed, p=None):
         """C conversion to an integer type of (bits, signed)"""
         if isinstance(v, CI):
+            iv, rng = (None, None)
+            if v.iv is not None:
+                iv, rng = wrap_int(v.iv, v.rng, bits, signed, self.fits_fn(p))
             if v.bits == bits:
-                return CI(v.bv, bits, signed)
+                return CI(v.bv, bits, signed, iv, rng)
             if v.bits > bits:
-                return CI(z3.Extract(bits - 1, 0, v.bv), bits, signed)
+                return CI(z3.Extract(bits - 1, 0, v.bv), bits, signed, iv, rng)
             ext = z3.SignExt if v.signed else z3.ZeroExt
-            return CI(ext(bits - v.bits, v.bv), bits, signed)
+            return CI(ext(bits - v.bits, v.bv), bits, signed, iv, rng)
         if isinstance(v, PyI):
-            s = z3.simplify(v.z)
-            if z3.is_int_value(s):
-                return CI(z3.BitVecVal(s.as_long(), bits), bits, signed)
-            return CI(z3.Int2BV(v.z, bits), bits, signed)
+            sv = z3.simplify(v.z)
+            if z3.is_int_value(sv):
+                val = sv.as_long()
+                iv, rng = wrap_int(z3.IntVal(val), (val, val), bits, signed)
+                return CI(z3.BitVecVal(val, bits), bits, signed, z3.simplify(iv), rng if rng != (val, val) else (val, val))
+            iv, rng = wrap_int(v.z, None, bits, signed)
+            return CI(z3.Int2BV(v.z, bits), bits, signed, iv, rng)
         if isinstance(v, PyB):
-            return CI(z3.If(v.z, z3.BitVecVal(1, bits), z3.BitVecVal(0, bits)), bits, signed)
+            return CI(z3.If(v.z, z3.BitVecVal(1, bits), z3.BitVecVal(0, bits)), bits, signed, z3.If(v.z, 1, 0), (0, 1))
         raise Unsupported(f"conv {type(v).__name__} to C int")
 
     @staticmethod
@@ -299,9 +362,10 @@ class Engine:
         if isinstance(v, PyI):
             s = z3.simplify(v.z)
             if z3.is_int_value(s):
-                b, sg = self.lit_ctype(s.as_long())
-                return CI(z3.BitVecVal(s.as_long(), b), b, sg)
-            return CI(z3.Int2BV(v.z, 64), 64, True)
+                val = s.as_long()
+                b, sg = self.lit_ctype(val)
+                return CI(z3.BitVecVal(val, b), b, sg, z3.IntVal(val), (val, val))
+            return self.conv(v, 64, True)
         if isinstance(v, PyB):
             return self.conv(v, 32, True)
         raise Unsupported(f"to_ci {type(v).__name__}")
@@ -310,25 +374,27 @@ class Engine:
     def promote(c):
         if c.bits < 32:
             ext = z3.SignExt if c.signed else z3.ZeroExt
-            return CI(ext(32 - c.bits, c.bv), 32, True)
+            return CI(ext(32 - c.bits, c.bv), 32, True, c.iv, c.rng)      # value-preserving
         return c
 
-    def usual(self, a, b):
+    def usual(self, a, b, p=None):
         a, b = self.promote(a), self.promote(b)
         if a.bits == b.bits and a.signed == b.signed:
             return a, b
         if a.signed == b.signed:
             bits = max(a.bits, b.bits)
-            return self.conv(a, bits, a.signed), self.conv(b, bits, a.signed)
+            return self.conv(a, bits, a.signed, p), self.conv(b, bits, a.signed, p)
         u, s = (a, b) if not a.signed else (b, a)
         if u.bits >= s.bits:
             t = (u.bits, False)
         else:
             t = (s.bits, True)
-        return self.conv(a, *t), self.conv(b, *t)
+        return self.conv(a, *t, p), self.conv(b, *t, p)
 
     def ci_int(self, c):
         """mathematical value of a C integer"""
+        if c.iv is not None:
+            return c.iv
         return z3.BV2Int(c.bv, is_signed=c.signed)
 
     def as_int(self, v, p=None, node=None):
@@ -351,7 +417,7 @@ class Engine:
         if isinstance(v, PyI):
             return v.z != 0
         if isinstance(v, CI):
-            return v.bv != 0
+            return (v.iv != 0) if v.iv is not None else (v.bv != 0)
         if isinstance(v, NoneV):
             return z3.BoolVal(False)
         if isinstance(v, Opt):
@@ -392,7 +458,8 @@ class Engine:
             if q.ctl is None:
                 q.ctl = ("ret", NONE)
             if q.ctl[0] == "ret" and f.ret and self.ctype(f.ret):
-                q.ctl = ("ret", self.conv(q.ctl[1], *self.ctype(f.ret)) if not isinstance(q.ctl[1], NoneV) else NONE)
+                q.ctl = ("ret", self.conv(q.ctl[1], *self.ctype(f.ret), q) if not isinstance(q.ctl[1], NoneV) else NONE)
+            q.ghost["locals:" + qualname] = q.env        # final local variables, for postconditions of proof scripts
             q.env, q.types = q.stack.pop()
             res.append(q)
         self.cur_func = saved[0]
@@ -420,7 +487,7 @@ class Engine:
         if t:
             ct = self.ctype(t)
             if ct and not isinstance(v, (NoneV,)):
-                return self.conv(v, *ct)
+                return self.conv(v, *ct, p)
         return v
 
     def block(self, stmts, paths):
@@ -436,13 +503,19 @@ class Engine:
         return live
 
     def loop_spec(self, node):
-        k = self.loop_ord.get(self.cur_func, 0)
-        if not hasattr(node, "_ord"):
-            node._ord = {}
-        if self.cur_func not in node._ord:
-            node._ord[self.cur_func] = k
-            self.loop_ord[self.cur_func] = k + 1
-        return self.loops.get((self.cur_func, node._ord[self.cur_func])), node._ord[self.cur_func]
+        """loops are addressed by ordinal = position in source order within the function (static, not by encounter)"""
+        f = self.funcs.get(self.cur_func)
+        tree = f.tree if f is not None else None
+        if not hasattr(node, "_static_ord"):
+            if tree is not None:
+                loops = sorted([n for n in ast.walk(tree) if isinstance(n, (ast.For, ast.While))],
+                               key=lambda n: (n.lineno, n.col_offset))
+                for k, n in enumerate(loops):
+                    n._static_ord = k
+            if not hasattr(node, "_static_ord"):
+                node._static_ord = -1
+        k = node._static_ord
+        return self.loops.get((self.cur_func, k)), k
 
     # ---- statements ----
     def stmt(self, st, p):
@@ -555,7 +628,7 @@ class Engine:
                 if isinstance(o, Ref):
                     ft = self.class_fields.get(o.cls, {}).get(t.attr)
                     ct = self.ctype(ft) if ft else None
-                    q.heap.setdefault(o.oid, {})[t.attr] = self.conv(v, *ct) if ct else v
+                    q.heap.setdefault(o.oid, {})[t.attr] = self.conv(v, *ct, q) if ct else v
                     out.append(q)
                 elif isinstance(o, Custom):
                     o.h.setattr(self, q, t.attr, v)
@@ -605,6 +678,8 @@ class Engine:
         spec, ordinal = self.loop_spec(st)
         if spec is not None and spec.mode == "invariant":
             return self.loop_invariant(st, p, spec, ordinal, lambda q: self.cond(st.test, q), None)
+        if spec is not None and spec.mode == "hook":
+            return spec.inv(self, st, p)          # the proof script treats the loop itself (e.g. control-state closure)
         bound = spec.bound if spec else 0
         return self.loop_unroll(st, p, bound, ordinal, lambda q: self.cond(st.test, q), None, explicit=spec is not None)
 
@@ -727,13 +802,13 @@ class Engine:
         h = p.fork()
         for v in list(spec.modifies) + list(extra_mod):
             if v in h.env:
-                h.env[v] = self.havoc_like(h.env[v], v)
+                h.env[v] = self.havoc_like(h.env[v], v, h)
         for r in spec.havoc_mem:
             rid = r(self, h) if callable(r) else r
             h.mem[rid] = self.fresh(f"mem_{rid}", z3.ArraySort(z3.IntSort(), z3.BitVecSort(8)))
         for (getref, field) in spec.havoc_fields:
             ref = getref(self, h)
-            h.heap[ref.oid][field] = self.havoc_like(h.heap[ref.oid][field], field)
+            h.heap[ref.oid][field] = self.havoc_like(h.heap[ref.oid][field], field, h)
         h.pc.append(spec.inv(self, h))
         result = []
         for r, c in test(h):
@@ -757,8 +832,14 @@ class Engine:
                             result.append(b)
         return result
 
-    def havoc_like(self, v, base):
+    def havoc_like(self, v, base, p=None):
         if isinstance(v, CI):
+            if v.iv is not None:
+                x = self.fresh_int(base)
+                c = CI(z3.Int2BV(x, v.bits), v.bits, v.signed, x, _rng_of(v.bits, v.signed))
+                if p is not None:
+                    p.pc.append(c.range_constraint())
+                return c
             return CI(self.fresh(base, z3.BitVecSort(v.bits)), v.bits, v.signed)
         if isinstance(v, PyI):
             return PyI(self.fresh_int(base))
@@ -767,7 +848,7 @@ class Engine:
         if isinstance(v, Ptr):
             return Ptr(v.region, self.fresh_int(base + "_off"), v.elem)
         if isinstance(v, Opt):
-            return Opt(self.fresh(base + "_none", z3.BoolSort()), self.havoc_like(v.val, base))
+            return Opt(self.fresh(base + "_none", z3.BoolSort()), self.havoc_like(v.val, base, p))
         if isinstance(v, Opaque):
             return Opaque(f"{base}!{next(self.counter)}")
         raise Unsupported(f"havoc of {type(v).__name__}")
@@ -911,13 +992,19 @@ class Engine:
                     out.append((q, PyI(z3.simplify(-v.z), lit=v.lit)))
                 elif isinstance(v, CI):
                     c = self.promote(v)
-                    out.append((q, CI(-c.bv, c.bits, c.signed)))
+                    iv, rng = (None, None)
+                    if c.iv is not None:
+                        iv, rng = wrap_int(-c.iv, (-c.rng[1], -c.rng[0]) if c.rng else None, c.bits, c.signed)
+                    out.append((q, CI(-c.bv, c.bits, c.signed, iv, rng)))
                 else:
                     raise Unsupported("unary minus")
             elif isinstance(e.op, ast.Invert):
                 if isinstance(v, CI):
                     c = self.promote(v)
-                    out.append((q, CI(~c.bv, c.bits, c.signed)))
+                    iv, rng = (None, None)
+                    if c.iv is not None:
+                        iv, rng = wrap_int(-c.iv - 1, (-c.rng[1] - 1, -c.rng[0] - 1) if c.rng else None, c.bits, c.signed)
+                    out.append((q, CI(~c.bv, c.bits, c.signed, iv, rng)))
                 elif isinstance(v, PyI):
                     out.append((q, PyI(-v.z - 1)))
                 else:
@@ -997,7 +1084,9 @@ class Engine:
             return b.h.rorder(self, p, type(op), a, node)
         ca, cb = isinstance(a, CI) or (isinstance(a, PyI) and a.lit), isinstance(b, CI) or (isinstance(b, PyI) and b.lit)
         if (isinstance(a, CI) or isinstance(b, CI)) and ca and cb:
-            x, y = self.usual(self.to_ci(a), self.to_ci(b))
+            x, y = self.usual(self.to_ci(a), self.to_ci(b), p)
+            if x.iv is not None and y.iv is not None:
+                return {ast.Lt: x.iv < y.iv, ast.LtE: x.iv <= y.iv, ast.Gt: x.iv > y.iv, ast.GtE: x.iv >= y.iv}[type(op)]
             if x.signed:
                 return {ast.Lt: x.bv < y.bv, ast.LtE: x.bv <= y.bv, ast.Gt: x.bv > y.bv, ast.GtE: x.bv >= y.bv}[type(op)]
             return {ast.Lt: z3.ULT(x.bv, y.bv), ast.LtE: z3.ULE(x.bv, y.bv), ast.Gt: z3.UGT(x.bv, y.bv),
@@ -1030,7 +1119,7 @@ class Engine:
             return a.z == b.z
         if isinstance(b, PyB) and isinstance(a, CI):
             # Cython: `x is False` on a C integer compiles to x == 0 / x != 0 ... (checked in the .c)
-            return z3.If(b.z, a.bv != 0, a.bv == 0)
+            return z3.If(b.z, self.truth(a), z3.Not(self.truth(a)))
         if isinstance(a, PyB) and isinstance(b, CI):
             return self.identical(b, a, p)
         if isinstance(a, Opt) or isinstance(b, Opt):
@@ -1090,7 +1179,9 @@ class Engine:
         ca = isinstance(a, CI) or (isinstance(a, PyI) and a.lit)
         cb = isinstance(b, CI) or (isinstance(b, PyI) and b.lit)
         if (isinstance(a, CI) or isinstance(b, CI)) and ca and cb:
-            x, y = self.usual(self.to_ci(a), self.to_ci(b))
+            x, y = self.usual(self.to_ci(a), self.to_ci(b), p)
+            if x.iv is not None and y.iv is not None:
+                return x.iv == y.iv
             return x.bv == y.bv
         return self.as_int(a) == self.as_int(b)
 
@@ -1144,7 +1235,7 @@ class Engine:
             raise Unsupported(f"cast to pointer of {type(v).__name__}")
         ct = self.ctype(t)
         if ct:
-            return self.conv(v, *ct)
+            return self.conv(v, *ct, p)
         if t == "double":
             return Opaque(("double", id(v)))
         return v   # <bytes>, <str>, <list>, <dict>, <ThriftObject>: checked casts of Python objects
@@ -1172,7 +1263,8 @@ class Engine:
                 if isinstance(op, ast.Sub):
                     sz = a.elem[0] // 8
                     d = a.off - b.off
-                    return CI(z3.Int2BV(d if sz == 1 else d / sz, 64), 64, True)
+                    d = d if sz == 1 else d / sz
+                    return CI(z3.Int2BV(d, 64), 64, True, d, None)
                 raise Unsupported("ptr op ptr")
             ptr, n, swap = (a, b, False) if isinstance(a, Ptr) else (b, a, True)
             k = self.as_int(n) * (ptr.elem[0] // 8)
@@ -1232,35 +1324,91 @@ class Engine:
         raise Unsupported(f"python arithmetic {type(op).__name__} with symbolic operand")
 
     def c_binop(self, op, a, b, p, node):
+        def const_of(c):
+            if c.iv is not None:
+                sv = z3.simplify(c.iv)
+                if z3.is_int_value(sv):
+                    return sv.as_long()
+            sb = z3.simplify(c.bv)
+            if z3.is_bv_value(sb):
+                return sb.as_signed_long() if c.signed else sb.as_long()
+            return None
+
+        def iv_rng(x, y, f, frng):
+            """integer view of a result computed mathematically (before wrapping to the result type)"""
+            if x.iv is None or y.iv is None:
+                return None, None
+            rng = frng(x.rng, y.rng) if (x.rng and y.rng and frng) else None
+            return f(x.iv, y.iv), rng
         if isinstance(op, (ast.LShift, ast.RShift)):
             x = self.promote(a)
             amt = self.promote(b)
             amt_i = self.ci_int(amt)
             self.oblige(p, f"{self.cur_func}.shift_in_range@L{node.lineno}", "safety",
                         z3.And(amt_i >= 0, amt_i < x.bits), node)
-            s = self.conv(amt, x.bits, False).bv
+            sh = self.conv(amt, x.bits, False).bv
+            k = const_of(amt)
+            iv = rng = None
             if isinstance(op, ast.LShift):
-                return CI(x.bv << s, x.bits, x.signed)
-            return CI((x.bv >> s) if x.signed else z3.LShR(x.bv, s), x.bits, x.signed)
-        x, y = self.usual(a, b)
+                if x.iv is not None and k is not None and 0 <= k < x.bits:
+                    iv, rng = wrap_int(x.iv * (1 << k), (x.rng[0] << k, x.rng[1] << k) if x.rng else None, x.bits, x.signed,
+                                       self.fits_fn(p))
+                return CI(x.bv << sh, x.bits, x.signed, iv, rng)
+            if x.iv is not None and k is not None and 0 <= k < x.bits:
+                # arithmetic shift of a signed value and logical shift of an unsigned one are both floor division
+                iv, rng = x.iv / (1 << k), ((x.rng[0] >> k, x.rng[1] >> k) if x.rng else None)
+            return CI((x.bv >> sh) if x.signed else z3.LShR(x.bv, sh), x.bits, x.signed, iv, rng)
+        x, y = self.usual(a, b, p)
         bits, sg = x.bits, x.signed
+        fits = self.fits_fn(p)
+
+        def mk(bv, iv, rng):
+            if iv is not None:
+                iv, rng = wrap_int(iv, rng, bits, sg, fits)
+            return CI(bv, bits, sg, iv, rng)
         if isinstance(op, ast.Add):
-            return CI(x.bv + y.bv, bits, sg)
+            iv, rng = iv_rng(x, y, lambda u, v: u + v, lambda r, t: (r[0] + t[0], r[1] + t[1]))
+            return mk(x.bv + y.bv, iv, rng)
         if isinstance(op, ast.Sub):
-            return CI(x.bv - y.bv, bits, sg)
+            iv, rng = iv_rng(x, y, lambda u, v: u - v, lambda r, t: (r[0] - t[1], r[1] - t[0]))
+            return mk(x.bv - y.bv, iv, rng)
         if isinstance(op, ast.Mult):
-            return CI(x.bv * y.bv, bits, sg)
+            kx, ky = const_of(x), const_of(y)
+            iv = rng = None
+            if x.iv is not None and y.iv is not None and (kx is not None or ky is not None):
+                iv = x.iv * y.iv
+                if x.rng and y.rng:
+                    c = [x.rng[0] * y.rng[0], x.rng[0] * y.rng[1], x.rng[1] * y.rng[0], x.rng[1] * y.rng[1]]
+                    rng = (min(c), max(c))
+            return mk(x.bv * y.bv, iv, rng)
         if isinstance(op, ast.BitAnd):
+            # masking with 2**k - 1 is `mod 2**k` (two's complement, any sign)
+            for u_, v_ in ((x, y), (y, x)):
+                k = const_of(v_)
+                if k is not None and k >= 0 and (k & (k + 1)) == 0 and u_.iv is not None:
+                    return CI(x.bv & y.bv, bits, sg, u_.iv % (k + 1), (0, k))
+            k1, k2 = const_of(x), const_of(y)
+            if k1 is not None and k2 is not None:
+                return CI(x.bv & y.bv, bits, sg, z3.IntVal(k1 & k2), (k1 & k2, k1 & k2))
             return CI(x.bv & y.bv, bits, sg)
         if isinstance(op, ast.BitOr):
             return CI(x.bv | y.bv, bits, sg)
         if isinstance(op, ast.BitXor):
             return CI(x.bv ^ y.bv, bits, sg)
         if isinstance(op, (ast.FloorDiv, ast.Div, ast.Mod)):
-            self.oblige(p, f"{self.cur_func}.div_nonzero@L{node.lineno}", "safety", y.bv != 0, node)
+            nz = (y.iv != 0) if y.iv is not None else (y.bv != 0)
+            self.oblige(p, f"{self.cur_func}.div_nonzero@L{node.lineno}", "safety", nz, node)
+            k = const_of(y)
+            iv = rng = None
+            # C truncating division == floor division when both operands are known non-negative
+            if x.iv is not None and k is not None and k > 0 and ((x.rng and x.rng[0] >= 0) or (fits and fits(x.iv, 0, 1 << 70))):
+                if isinstance(op, ast.Mod):
+                    iv, rng = x.iv % k, (0, k - 1)
+                else:
+                    iv, rng = x.iv / k, ((max(0, x.rng[0]) // k, x.rng[1] // k) if x.rng else None)
             if isinstance(op, ast.Mod):
-                return CI(z3.SRem(x.bv, y.bv) if sg else z3.URem(x.bv, y.bv), bits, sg)
-            return CI((x.bv / y.bv) if sg else z3.UDiv(x.bv, y.bv), bits, sg)   # cdivision=True: C truncation
+                return CI(z3.SRem(x.bv, y.bv) if sg else z3.URem(x.bv, y.bv), bits, sg, iv, rng)
+            return CI((x.bv / y.bv) if sg else z3.UDiv(x.bv, y.bv), bits, sg, iv, rng)   # cdivision=True: C truncation
         raise Unsupported(f"C binop {type(op).__name__}")
 
     # ---- attribute / subscript / call ----
@@ -1278,7 +1426,8 @@ class Engine:
             ft = self.class_fields.get(o.cls, {}).get(attr)
             if ft and self.ctype(ft):
                 b, s = self.ctype(ft)
-                h[attr] = CI(self.fresh(f"{o.oid}.{attr}", z3.BitVecSort(b)), b, s)
+                h[attr] = CI.var(f"{o.oid}.{attr}!{next(self.counter)}", b, s)
+                p.pc.append(h[attr].range_constraint())
                 return h[attr]
             if (o.cls + "." + attr) in self.funcs:
                 f = self.funcs[o.cls + "." + attr]
